@@ -33,10 +33,20 @@ pub fn check_cursors(input: &str, cfg: &Cfg, cursors: &[u32]) -> Result<CursorFa
     for (c, r) in cursors.iter().zip(&res) {
         let r = *r as usize;
         if r > out.len() || !out.is_char_boundary(r) {
+            // facts for finding signatures: where was the cursor?
+            let ti = refscan::scan(input);
+            let cu = *c as usize;
+            let in_blanks = ti.iter().any(|t| cu >= t.ws_start && cu < t.start);
+            let has_toggle = ti
+                .iter()
+                .any(|t| t.kind.is_comment() && crate::model::toggle::parse_toggle(t.text(input)).is_some());
             return Err(Failure::new(
                 "bounds",
                 format!("cursor {c} is reported at {r}, outside the output ({} bytes) or inside a character", out.len()),
-            ));
+            )
+            .fact(if in_blanks { "cursor-in-blanks" } else { "cursor-in-token" })
+            .fact(if has_toggle { "has-toggle" } else { "no-toggle" })
+            .fact(if cfg.crlf { "cfg:crlf" } else { "cfg:lf" }));
         }
         if *c as usize > input.len() && r != out.len() {
             return Err(Failure::new(
@@ -115,10 +125,13 @@ impl Prop for C15Prop {
     fn streams(&self, tier: Tier) -> Vec<Stream> {
         let q = tier == Tier::Quick;
         let mut v = vec![
-            Stream::random("any", if q { 8000 } else { 100000 }, 400),
+            Stream::random("any", if q { 5000 } else { 100000 }, 400),
             Stream::random("any_chk", if q { 2000 } else { 20000 }, 400).chk(),
             Stream::random("seeds", if q { 6000 } else { 60000 }, 64),
             Stream::random("boundary", if q { 4 } else { 30 }, 32).shards(8),
+            // multi-line literals that get re-indented, cursors inside them (C12's generator)
+            Stream::random("lits", if q { 3000 } else { 40000 }, 300),
+            Stream::random("lits_chk", if q { 1000 } else { 10000 }, 300).chk(),
         ];
         v.extend(crate::props::wf::wf_streams(tier, 1));
         v
@@ -138,6 +151,11 @@ impl Prop for C15Prop {
                     _ => s.replace(", ", ",").replace(" := ", ":="),
                 };
                 (s, "seed")
+            }
+            "lits" => {
+                let mut c = crate::props::c12::C12.generate("lits", t)?;
+                c.cursors = gen_token_cursors(t, &c.input);
+                return Some(c);
             }
             "boundary" => {
                 let n = *t.pick(&[65534usize, 65535, 65536, 65537, 70000]);
